@@ -76,7 +76,7 @@ def showErr : Err → String
   | .internal => "MODEL-ERROR internal"
 
 def runGo (c : Cfg) (strs : List Str) : String :=
-  let fuel := 4 * (strs.length + (strs.map List.length).foldl max 0) + 100
+  let fuel := fuelFor strs
   match sortAll (mkEnv c strs.length) fuel strs with
   | .error e => showErr e
   | .ok r =>
